@@ -6,7 +6,8 @@ from . import tlc
 def to_ndjson(histories):
     lines = []
     for h in histories:
-        lines.append(json.dumps({"ev": "reset"}))
+        if not (h and h[0].get("ev") == "reset"):
+            lines.append(json.dumps({"ev": "reset"}))
         for e in h:
             lines.append(json.dumps(e, separators=(",", ":")))
     return "\n".join(lines) + "\n"
@@ -31,42 +32,60 @@ def locate(histories, at):
     """Map a 1-based position in the concatenated trace to (history index, event index)."""
     pos = 0
     for hi, h in enumerate(histories):
-        n = 1 + len(h)
+        own = bool(h and h[0].get("ev") == "reset")
+        n = len(h) + (0 if own else 1)
         if at <= pos + n:
-            return hi, at - pos - 2
+            return hi, at - pos - (1 if own else 2)
         pos += n
     return len(histories) - 1, -1
 
 
-def validate_all(rep, comp, module, cfg, histories, *, label, shards=8, timeout=900, key_fn=None, deque=False):
-    """Shard histories over several single-worker TLC runs.  A rejected shard is bisected to the
-    offending history, which is validated again alone before it is reported."""
+def validate_all(rep, comp, module, cfg, histories, *, label, shards=8, timeout=900, key_fn=None, deque=False,
+                 max_violations=3):
+    """Shard histories over several single-worker TLC runs.  TLC explores breadth-first, so when a shard is
+    rejected at history i every earlier history of the shard was explained; history i is validated again alone
+    before it is reported and the shard continues after it.  After max_violations reported violations the
+    remaining histories are left unvalidated (counted in evidence) - the verdict is already exit 1."""
     import concurrent.futures as cf
+    import threading
     if not histories:
         rep.infra_error(label + ": no histories recorded")
         return
     shards = max(1, min(shards, len(histories)))
     parts = [histories[i::shards] for i in range(shards)]
-    with cf.ThreadPoolExecutor(max_workers=shards) as ex:
-        futs = [ex.submit(validate, comp, module, cfg, p, timeout, deque) for p in parts]
-        results = [f.result() for f in futs]
-    for part, (acc, r, info) in zip(parts, results):
-        rep.add_tlc("%s/%s" % (module, cfg), r, "trace validation of %d histories" % len(part))
-        if acc is None:
-            rep.infra_error("%s: trace validation did not complete: %s" % (label, str(info)[:600]))
-        elif acc:
-            rep.add_cases(part, nontrivial=lambda h: len(h) > 4)
-        else:
+    lock = threading.Lock()
+    state = dict(viol=0, skipped=0)
+
+    def work(part):
+        while part:
+            with lock:
+                if state["viol"] >= max_violations:
+                    state["skipped"] += len(part)
+                    return
+            acc, r, info = validate(comp, module, cfg, part, timeout, deque)
+            with lock:
+                rep.add_tlc("%s/%s" % (module, cfg), r, "trace validation of %d histories" % len(part))
+                if acc is None:
+                    rep.infra_error("%s: trace validation did not complete: %s" % (label, str(info)[:600]))
+                    return
+                if acc:
+                    rep.add_cases(part, nontrivial=lambda h: len(h) > 4)
+                    return
             hi, ei = locate(part, info["at"])
             bad = part[hi]
             acc2, r2, info2 = validate(comp, module, cfg, [bad], timeout, deque)
-            if acc2 is False:
-                key = key_fn(bad, info2) if key_fn else label + "/history-rejected"
-                rep.violation(key, "history not explainable by %s: first unexplained event #%d %s" % (
-                    module, info2["at"] - 1, json.dumps(info2["event"])[:300]), dict(history=bad, rejected_at=info2))
-            else:
-                rep.infra_error("%s: rejection did not reproduce on the single history" % label)
-            # the remaining histories of this shard are still checked
-            rest = part[:hi] + part[hi + 1:]
-            if rest:
-                validate_all(rep, comp, module, cfg, rest, label=label, shards=1, timeout=timeout, key_fn=key_fn, deque=deque)
+            with lock:
+                rep.add_cases(part[:hi], nontrivial=lambda h: len(h) > 4)
+                if acc2 is False:
+                    key = key_fn(bad, info2) if key_fn else label + "/history-rejected"
+                    rep.violation(key, "history not explainable by %s: first unexplained event #%d %s" % (
+                        module, info2["at"] - 1, json.dumps(info2["event"])[:300]), dict(history=bad, rejected_at=info2))
+                    state["viol"] += 1
+                else:
+                    rep.infra_error("%s: rejection did not reproduce on the single history" % label)
+            part = part[hi + 1:]
+
+    with cf.ThreadPoolExecutor(max_workers=shards) as ex:
+        list(ex.map(work, parts))
+    if state["skipped"]:
+        rep.cov["histories_not_validated_after_violations"] = rep.cov.get("histories_not_validated_after_violations", 0) + state["skipped"]
